@@ -306,6 +306,11 @@ CloneT(S, h) ==
    not move the other), every write through either is a write to the shared cells *)
 ShallowCloneT(S, h) == OkH(AddLive(S, S.live[h]), NewH(S))
 
+(* ShallowReturn: a shallow clone is made and handed straight back to the library's pools.
+   Nothing observable changes: in particular the operand keeps its pending transposition and
+   can still undo it (the clone must own its copy of the saved access pattern and axes) *)
+ShallowReturnT(S, h) == OkH(S, 0)
+
 (* Copy(dst, src): element k of dst := element k of src (logical row-major) *)
 CopyT(S, d, s) ==
     LET td == S.live[d] ts == S.live[s]
@@ -801,6 +806,7 @@ Apply(S, op) ==
       [] op.k = "Materialize" -> MaterializeT(S, op.h)
       [] op.k = "Clone"       -> CloneT(S, op.h)
       [] op.k = "ShallowClone" -> ShallowCloneT(S, op.h)
+      [] op.k = "ShallowReturn" -> ShallowReturnT(S, op.h)
       [] op.k = "Copy"        -> CopyT(S, op.h, op.a[1])
       [] op.k = "Memset"      -> MemsetT(S, op.h, K(op.a[1]))
       [] op.k = "Zero"        -> ZeroT(S, op.h)
